@@ -173,6 +173,9 @@ pub struct Ctx {
     pub exhaustive_parts: Vec<String>,
     pub inconclusive: Vec<String>,
     pub harness_errors: Vec<String>,
+    /// when set (seconds), a generated case that does not return within that time is reported as a
+    /// violation (non-termination) instead of stalling the check until the watchdog ends it
+    pub hang_limit_s: Option<u64>,
     pub max_shrink_iters: u32,
     pub start: Instant,
 }
@@ -201,6 +204,7 @@ impl Ctx {
             exhaustive_parts: vec![],
             inconclusive: vec![],
             harness_errors: vec![],
+            hang_limit_s: None,
             max_shrink_iters: 4096,
             start: Instant::now(),
         }
@@ -391,8 +395,41 @@ where
     let fam_salt = fp(&(family, &ctx.property));
     let seed = ctx.seed;
     let shrink_iters = ctx.max_shrink_iters;
+    let hang_limit = ctx.hang_limit_s;
+    // per-worker "case in flight" slots for the non-termination monitor
+    let slots: Vec<Mutex<Option<(Instant, S::Value)>>> = (0..workers).map(|_| Mutex::new(None)).collect();
+    let done = std::sync::atomic::AtomicBool::new(false);
+    let remaining = std::sync::atomic::AtomicUsize::new(workers);
     std::thread::scope(|sc| {
+        if let Some(limit) = hang_limit {
+            let slots = &slots;
+            let done = &done;
+            let to_case = &to_case;
+            let family = family.to_string();
+            sc.spawn(move || {
+                while !done.load(std::sync::atomic::Ordering::Relaxed) {
+                    std::thread::sleep(std::time::Duration::from_millis(250));
+                    for s in slots.iter() {
+                        let stuck = match s.lock() {
+                            Ok(g) => g.as_ref().filter(|(t, _)| t.elapsed().as_secs() >= limit).map(|(_, v)| v.clone()),
+                            Err(_) => None,
+                        };
+                        if let Some(v) = stuck {
+                            // the worker cannot be interrupted: report and end the process
+                            let viol = Violation { family: family.clone(), case: to_case(&v), message: format!("the call did not return within {} s on this input (non-termination)", limit) };
+                            if let Ok(mut g) = FOUND.lock() {
+                                g.insert(0, viol);
+                            }
+                            watchdog_fire(limit);
+                        }
+                    }
+                }
+            });
+        }
+        let done = &done;
+        let remaining = &remaining;
         for w in 0..workers {
+            let slots = &slots;
             let make_strategy = &make_strategy;
             let check = &check;
             let to_case = &to_case;
@@ -416,6 +453,11 @@ where
                 let strat = make_strategy();
                 let res = runner.run(&strat, |v| {
                     let mut st = stats.borrow_mut();
+                    if hang_limit.is_some() {
+                        if let Ok(mut g) = slots[w].lock() {
+                            *g = Some((Instant::now(), v.clone()));
+                        }
+                    }
                     let r = match crate::bridge::catch(|| check(&v, &mut st)) {
                         Ok(r) => r,
                         Err(p) => Err(format!("PANIC: {}", p)),
@@ -428,6 +470,12 @@ where
                         }
                     }
                 });
+                if let Ok(mut g) = slots[w].lock() {
+                    *g = None;
+                }
+                if remaining.fetch_sub(1, std::sync::atomic::Ordering::SeqCst) == 1 {
+                    done.store(true, std::sync::atomic::Ordering::Relaxed);
+                }
                 let mut g = merged.lock().unwrap();
                 g.0.merge(stats.into_inner());
                 match res {
